@@ -105,3 +105,65 @@ theorem while_sim (Γ : List Ptr) (c : Expr) (body : Stmt) (S : α → State) (t
       simp only [whileA, ht', Bool.false_eq_true, if_false]
 
 end Spq.CIR
+
+namespace Spq.CIR
+/-- A loop whose body either finishes the whole function (`return`: `Done`) or hands over to the next iteration
+    (`Next`), against a fuel-indexed model `modelL`.  `rank` bounds the number of remaining iterations, `Inv` is
+    an invariant of the loop-head states. -/
+theorem loopN_levels {γ : Type} (c : State → R Bool) (step : Nat → State → Out) (S : γ → State)
+    (Inv : γ → Prop) (cont : γ → Bool) (Done : γ → Mem → Prop) (Next : γ → γ → Prop) (modelL : Nat → γ → Mem)
+    (rank : γ → Nat) (fb : Nat)
+    (hcond : ∀ g, c (S g) = .ok (cont g))
+    (hrank : ∀ g, Inv g → cont g = true → 1 ≤ rank g)
+    (hstop : ∀ m g, cont g = false → modelL m g = (S g).mem)
+    (hdone : ∀ m g M, cont g = true → Done g M → modelL (m + 1) g = M)
+    (hnext : ∀ m g g', cont g = true → Next g g' → modelL (m + 1) g = modelL m g' ∧ rank g' + 1 ≤ rank g)
+    (hstep : ∀ g, Inv g → cont g = true → ∀ f, fb ≤ f →
+      (∃ σ', step f (S g) = .ok (.ret, σ') ∧ Done g σ'.mem) ∨
+      (∃ g', step f (S g) = .ok (.norm, S g') ∧ Next g g' ∧ Inv g')) :
+    ∀ m g f, Inv g → rank g ≤ m → rank g + fb ≤ f →
+      ∃ fl σ', loopN c step f (S g) = .ok (fl, σ') ∧ σ'.mem = modelL m g := by
+  intro m
+  induction m with
+  | zero =>
+    intro g f hI hr _
+    have hc' : cont g = false := by
+      cases hc : cont g with
+      | false => rfl
+      | true => have := hrank g hI hc; omega
+    exact ⟨.norm, S g, loopN_of_false _ _ _ _ (by rw [hcond, hc']), (hstop 0 g hc').symm⟩
+  | succ m ih =>
+    intro g f hI hr hf
+    cases hc : cont g with
+    | false => exact ⟨.norm, S g, loopN_of_false _ _ _ _ (by rw [hcond, hc]), (hstop _ g hc).symm⟩
+    | true =>
+      have h1 := hrank g hI hc
+      obtain ⟨f', rfl⟩ : ∃ f', f = f' + 1 := ⟨f - 1, by omega⟩
+      rcases hstep g hI hc f' (by omega) with ⟨σ', hs, hd⟩ | ⟨g', hs, hn, hI'⟩
+      · refine ⟨.ret, σ', ?_, (hdone m g _ hc hd).symm⟩
+        simp only [loopN, hcond, hc, hs]
+      · obtain ⟨hm, hrk⟩ := hnext m g g' hc hn
+        obtain ⟨fl, σ', h2, h3⟩ := ih g' f' hI' (by omega) (by omega)
+        refine ⟨fl, σ', ?_, by rw [h3, hm]⟩
+        rw [loopN_succ_of_true _ _ _ _ _ (by rw [hcond, hc]) hs]
+        exact h2
+
+/-- `loopN_levels` as an equation on the final memory -/
+theorem memOf_loopN_levels {γ : Type} (c : State → R Bool) (step : Nat → State → Out) (S : γ → State)
+    (Inv : γ → Prop) (cont : γ → Bool) (Done : γ → Mem → Prop) (Next : γ → γ → Prop) (modelL : Nat → γ → Mem)
+    (rank : γ → Nat) (fb : Nat)
+    (hcond : ∀ g, c (S g) = .ok (cont g))
+    (hrank : ∀ g, Inv g → cont g = true → 1 ≤ rank g)
+    (hstop : ∀ m g, cont g = false → modelL m g = (S g).mem)
+    (hdone : ∀ m g M, cont g = true → Done g M → modelL (m + 1) g = M)
+    (hnext : ∀ m g g', cont g = true → Next g g' → modelL (m + 1) g = modelL m g' ∧ rank g' + 1 ≤ rank g)
+    (hstep : ∀ g, Inv g → cont g = true → ∀ f, fb ≤ f →
+      (∃ σ', step f (S g) = .ok (.ret, σ') ∧ Done g σ'.mem) ∨
+      (∃ g', step f (S g) = .ok (.norm, S g') ∧ Next g g' ∧ Inv g'))
+    (m : Nat) (g : γ) (f : Nat) (hI : Inv g) (hr : rank g ≤ m) (hf : rank g + fb ≤ f) :
+    memOf (loopN c step f (S g)) = .ok (modelL m g) := by
+  obtain ⟨fl, σ', h1, h2⟩ := loopN_levels c step S Inv cont Done Next modelL rank fb hcond hrank hstop hdone hnext
+    hstep m g f hI hr hf
+  rw [h1, ← h2]
+  rfl
+end Spq.CIR
